@@ -189,6 +189,7 @@ type World struct {
 	ResFor   func(s *Sess) resource.Resource // optional override of the resource stack
 	Disk     *simfs.FS
 	Pg       *pgfake.Server
+	scratchDirs   []string // directories on the real file system that Close removes
 	sharedPe      *persist.Persister
 	sharedPeStore db.Db
 	// Fired counts the faults that actually reached the library, by kind (evidence only; never feeds a decision).
